@@ -133,9 +133,71 @@ def oracle(case):
         s.close()
 
 
-SUBS = [Sub("command_histories", strategy=case_st(), oracle=oracle, examples={"quick": 800, "thorough": 30000})]
+def argument_lattice(ctx, rec):
+    """every known verb x every argument vector of 0..2 (SETFH: 0..5) boundary integers, sent to a fresh and to a tuned, running
+    transceiver, model and application compared after every single command (reply, power, settings): the lattice of argument
+    boundaries is finite and enumerated instead of sampled"""
+    import itertools
+    from harness.core import Failure, Violation
+    G = [-120, -47, -1, 0, 1, 2, 7, 8, 63, 64, 200, 3600000, 3600001, 935000]
+    verbs = ["POWERON", "POWEROFF", "RXTUNE", "TXTUNE", "MEASURE", "SETFORMAT", "SETPOWER", "NOMTXPOWER", "RFMUTE", "SETTA",
+             "FAKE_TOA", "FAKE_RSSI", "FAKE_CI", "FAKE_DROP", "FAKE_TRXC_DELAY", "SETFH"]
+    cfg = {"bts_port": 5700, "bb_port": 6700, "bts_addr": "127.0.0.1", "bb_addr": "127.0.0.1", "bind_addr": "0.0.0.0", "trx_defs": [("B1", "127.0.0.1", 5700, 1)]}
+    fails, seen = [], set()
+    n_cmd = 0
+    for state in ("fresh", "running"):
+        for verb in verbs:
+            vectors = [[]] + [[a] for a in G] + [[a, b] for a in G for b in G]
+            if verb == "SETFH":
+                vectors = [[]] + [list(v) for k in (1, 2, 3, 4, 5) for v in itertools.product([-1, 0, 63, 64, 935000, 890000], repeat=k)][::(1 if ctx.tier == "thorough" else 5)]
+            s = None
+            for args in vectors:
+                if s is None:
+                    s = Session(cfg, {"reply", "power", "clock", "settings"}, "c05")
+                    s.cmd(0, "FAKE_TRXC_DELAY", ["0"])
+                    if state == "running":
+                        for i in range(s.n):
+                            s.cmd(i, "RXTUNE", ["890000" if i == 1 else "935000"])
+                            s.cmd(i, "TXTUNE", ["935000" if i == 1 else "890000"])
+                            s.cmd(i, "POWERON", [])
+                try:
+                    s.cmd(0, verb, [str(a) for a in args])
+                    if verb == "FAKE_TRXC_DELAY":
+                        s.cmd(0, "FAKE_TRXC_DELAY", ["0"])
+                    n_cmd += 1
+                except Violation as v:
+                    if v.sig not in seen:
+                        seen.add(v.sig)
+                        fails.append(Failure("argument_lattice", {"state": state, "verb": verb, "args": args}, v.sig, v.msg))
+                    s.close()
+                    s = None          # model and application may have diverged: start over
+            if s is not None:
+                s.close()
+    rec.bulk(n_cmd, n_cmd, {"lattice-commands": n_cmd})
+    rec.exhaustive = True
+    rec.samples.append({"enumerated": "16 verbs x (0, 1, 2 arguments from %r) x {fresh, tuned+running}" % (G,)})
+    return fails
 
 
+def lattice_replay(case):
+    cfg = {"bts_port": 5700, "bb_port": 6700, "bts_addr": "127.0.0.1", "bb_addr": "127.0.0.1", "bind_addr": "0.0.0.0", "trx_defs": [("B1", "127.0.0.1", 5700, 1)]}
+    s = Session(cfg, {"reply", "power", "clock", "settings"}, "c05")
+    try:
+        s.cmd(0, "FAKE_TRXC_DELAY", ["0"])
+        if case["state"] == "running":
+            for i in range(s.n):
+                s.cmd(i, "RXTUNE", ["890000" if i == 1 else "935000"])
+                s.cmd(i, "TXTUNE", ["935000" if i == 1 else "890000"])
+                s.cmd(i, "POWERON", [])
+        s.cmd(0, case["verb"], [str(a) for a in case["args"]])
+    finally:
+        s.close()
+
+
+SUBS = [Sub("argument_lattice", fn=argument_lattice), Sub("command_histories", strategy=case_st(), oracle=oracle, examples={"quick": 800, "thorough": 30000})]
+
+
+SUBS[0].replay = lattice_replay
 # ---------------------------------------------------------------------------
 # trxcon compatibility: commands are produced by the unmodified trx_if.c, answered by FakeTRX,
 # and the answer is fed back into trxcon's response parser.
